@@ -124,7 +124,7 @@ def values_for(name, cls):
         return [0, 1, 12345]
     if cls == "str":
         if name in ("docmark", "predocmark", "docmark_alt", "predocmark_alt"):
-            return ["+", "%%", "~"]
+            return ["+", "%%", "~"] + ([""] if name != "docmark" else [])  # (an empty mark switches that comment style off)
         if name == "sort":
             return ["alpha", "permission-alpha", "type"]
         if name in ("license", "doc_license"):
@@ -455,6 +455,45 @@ def run_case(st: Stats, case):
             bad = 1
             st.violation("value-differs-from-reference", "select/" + optname, dict(feats, field=optname, fmt="md"), inp, vals[0], sorted(want))
         st.stratum("select/" + optname, bad)
+    elif kind == "defaults":
+        # nothing is set: whichever way FORD is started, every simple option has the value the documentation gives as its default
+        _, fmt = case
+        from ford.settings import ProjectSettings
+
+        got, err, log = evaluate(fmt, {})
+        st.evaluations += 1
+        st.transitions += 1
+        st.nontrivial.add(core.digest(case))
+        feats = dict(space="defaults", fmt=fmt)
+        inp = dict(fmt=fmt, defaults=True)
+        bad = 0
+        if err:
+            bad = 1
+            st.violation("ford-failed", "defaults/" + fmt, feats, inp, err, "settings are read")
+        else:
+            ref = dataclasses.asdict(ProjectSettings(preprocess=False))
+            for name, tp in fields.items():
+                if type_class(tp) in ("bool", "int") and name not in VOLATILE and got.get(name) != ref.get(name):
+                    bad += 1
+                    st.violation("value-differs-from-reference", "defaults/" + fmt, dict(feats, field=name), inp, {name: got.get(name)}, {name: ref.get(name)})
+        st.stratum("defaults/" + fmt, bad)
+    elif kind == "scalar-list":
+        # a list option holding one entry may be written as a plain string in fpm.toml, as it is in the project file
+        _, name, value = case
+        obs = {}
+        for fmt, v in (("md", [value]), ("toml", value), ("toml-list", [value])):
+            got, err, log = evaluate(fmt.split("-")[0], {name: v})
+            st.evaluations += 1
+            st.transitions += 1
+            obs[fmt] = err or got.get(name)
+        st.nontrivial.add(core.digest(case))
+        feats = dict(space="scalar-list", option=name)
+        inp = dict(option=name, value=value, scalar_list=True)
+        bad = 0
+        if not (obs["md"] == obs["toml"] == obs["toml-list"]):
+            bad = 1
+            st.violation("formats-disagree", "scalar-list", feats, inp, obs, "the same one-entry list")
+        st.stratum("scalar-list", bad)
     elif kind == "unknown":
         _, fmt, key = case
         got, err, log = evaluate(fmt, {key: "some value", "project": "named"})
@@ -558,6 +597,11 @@ def gen_cases(tier):
                                  ("exclude", ["**/skip.f90"], ["../outer/skip.f90"]), ("exclude_dir", ["../outer"], OUT), ("extensions", ["f90"], [])):
         yield ("select", optname, value, [f for f in OUT if f not in gone], ["../outer"])
     for fmt in ("md", "toml", "config"):
+        yield ("defaults", fmt)
+    for name, value in (("display", "public"), ("display", "private"), ("extensions", "f90"), ("fixed_extensions", "f"), ("exclude", "x.f90"), ("macro", "A=1"),
+                        ("md_extensions", "markdown.extensions.toc"), ("extra_vartypes", "mytype")):
+        yield ("scalar-list", name, value)
+    for fmt in ("md", "toml", "config"):
         for key in ("no_such_option", "projekt", "output-dir", "relative"):  # the last one is an attribute of the settings object, not an option
             yield ("unknown", fmt, key)
         for name, tp in fields.items():
@@ -587,6 +631,10 @@ def replay(path):
     st = Stats()
     if "options" in i:
         check_formats(st, i["options"], rec["site"], rec["features"], i.get("cwd", "proj"))
+    elif i.get("defaults"):
+        run_case(st, ("defaults", i["fmt"]))
+    elif i.get("scalar_list"):
+        run_case(st, ("scalar-list", i["option"], i["value"]))
     elif "src_dir" in i:
         run_case(st, ("select", i["option"], i["value"], i.get("want"), i["src_dir"]))
     else:
